@@ -1,7 +1,10 @@
 #!/usr/bin/env python3
 """Builds /verif/seeded/<name>/ from the agents' mutant directories and the mutant-queue result logs.
 
-usage: tools/make_seeded.py <results.txt>...   (later files override earlier ones per mutant/check)
+usage: tools/make_seeded.py <results.txt>... [--final <results.txt>...]
+  Files before --final supply the confirmation records (and check results, later files override
+  earlier ones); if --final files are given, check results are taken from them only (the matrix
+  re-run with the final harness).
 
 A mutant is kept only if tools/verify_mutant.sh confirmed it (patch applies, existing suite passes
 with it, demo fails with it and passes without it)."""
@@ -17,7 +20,7 @@ def parse(paths):
         for line in open(path, errors="replace"):
             m = re.match(r"=== (\S+) ", line)
             if m:
-                name = re.sub(r"_r\d+$", "", m.group(1))
+                name = re.sub(r"_(r\d+|fin)$", "", m.group(1))
                 continue
             if name is None:
                 continue
@@ -33,13 +36,20 @@ def parse(paths):
     return verify, checks
 
 NOT_CAUGHT = {
-    "C03b_2": "needs a server tick above 2^31 (wrapping order makes the first update tick look older than the client's initial tick 0); the workload keeps ticks below 2^22 because the unchanged library itself misorders ticks across that distance (DESIGN.md observation O4), so the region is outside the domain in which the oracles are sound",
+    "C11c_1": "needs the per-client mutate index (u16) to wrap around onto an entry that is still unacknowledged, i.e. 65 536 mutate messages for one client inside one acknowledgement timeout; runs are a few hundred ticks long",
+    "_C03b_2_old": "needs a server tick above 2^31 (wrapping order makes the first update tick look older than the client's initial tick 0); the workload keeps ticks below 2^22 because the unchanged library itself misorders ticks across that distance (DESIGN.md observation O4), so the region is outside the domain in which the oracles are sound",
     "C08b_2": "needs a replicated linked-spawn hierarchy (replicate::<ChildOf>) whose parent and child are hidden in consecutive ticks; the simulator does not replicate linked relationships as components (domain rule R4: client-side recursive despawn is Bevy semantics, see also observation O9)",
     "C13b_1": "only affects events emitted while the client is in the transitional Connecting state; the property promises handling for the four configurations, and the unchanged library itself discards such events when the connection attempt succeeds, so the C13 model makes no promise for them",
 }
 
 def main():
-    verify, checks = parse(sys.argv[1:])
+    args = sys.argv[1:]
+    if "--final" in args:
+        k = args.index("--final")
+        verify, _ = parse(args[:k] + args[k + 1:])
+        _, checks = parse(args[k + 1:])
+    else:
+        verify, checks = parse(args)
     out_root = os.path.join(ROOT, "seeded")
     os.makedirs(out_root, exist_ok=True)
     kept = []
@@ -79,8 +89,10 @@ def main():
             "checks_run_against_it": {c: ("VIOLATION reported" if r["exit"] == 1 else "silent" if r["exit"] == 0 else "inconclusive") + f" ({r['violating_observations']} violating observations in {r['runs']} runs)" for c, r in sorted(det.items())},
             "caught_by": sorted(c for c, r in det.items() if r["exit"] == 1),
         }
-        if name in NOT_CAUGHT:
-            meta["why_not_caught"] = NOT_CAUGHT[name]
+        if not meta["caught_by"]:
+            meta["why_not_caught"] = NOT_CAUGHT.get(name, "not analysed")
+        elif pid not in meta["caught_by"]:
+            meta["note"] = "the check of the property the change was written against stays silent; it is reported by the checks listed in caught_by (the violated clause is judged by their oracles)"
         with open(os.path.join(dst, "meta.json"), "w") as f:
             json.dump(meta, f, indent=1)
         kept.append((name, meta["caught_by"]))
